@@ -22,7 +22,7 @@ static uint8_t wbits[4096];
 static uint8_t *vars0; static size_t nvb;
 static char note[300];
 static int cur_op; static long locks_in_call, unlocks_in_call; static uint64_t h_call, h_unlock; static bool have_unlock;
-static int fault_op = -1; static int fault_state_class;
+static int fault_op = -1, fault_op_u = -1; static int fault_state_class;
 
 static uint64_t world_hash(void)
 {
@@ -120,7 +120,7 @@ static void run_history(long fail_lock, long fail_unlock, int *rets, struct outc
         cont_done = false;
         w_load_vars(vars0);
         w_reinit(0);
-        INPOS = 0; out_reset(); units_reset(); trace_h = 5; fault_op = -1;
+        INPOS = 0; out_reset(); units_reset(); trace_h = 5; fault_op = -1; fault_op_u = -1;
         MX_LOCKS = MX_UNLOCKS = 0; MX_DEPTH = 0; MX_FAIL_LOCK_AT = fail_lock; MX_FAIL_UNLOCK_AT = fail_unlock;
         pr_seed(&HP, CUR_SEED ^ 0x16, (uint64_t)CUR_CASE);
         POLICY = policy; VPOLICY = vpolicy; ON_LOCK = on_lock; ON_LOCK_WAIT = cont_at >= 0 ? on_lock_wait : NULL;
@@ -129,6 +129,7 @@ static void run_history(long fail_lock, long fail_unlock, int *rets, struct outc
                 long l0 = MX_LOCKS, u0 = MX_UNLOCKS;
                 bool lock_fault_here = fail_lock >= 0 && l0 == fail_lock, unlock_fault_here = fail_unlock >= 0 && u0 == fail_unlock;
                 if (lock_fault_here || unlock_fault_here) { fault_op = i; fault_state_class = state_class(); }
+                if (unlock_fault_here) fault_op_u = i;
                 if (i == seq_insert_before) { seq_ret = guarded(&cont_op, i); fault_op = i; fault_state_class = state_class(); }
                 if (cont_at >= 0 && !cont_done && MX_LOCKS == cont_at) { fault_op = i; fault_state_class = state_class(); }
                 if (lock_fault_here) {
@@ -196,7 +197,9 @@ struct case_budget chk_budget(const char *tier)
 void chk_run_case(uint64_t seed, long c, bool is_sweep)
 {
         (void)seed; (void)is_sweep; note[0] = 0;
+        SHADOW_PCT = 20;
         if (c % 64 != 0) { engine_history_with_mutex(); return; }
+        if ((c / 64) & 1) SHADOW_PCT = 0;      /* every second enumerated history runs without the second parser instance: its service calls would hide state that is shared between two objects by mistake only when exactly one object is used */
         w_begin();
         W.use_mutex = true;
         struct cat_command *a = w_group(6, false);
@@ -239,6 +242,22 @@ void chk_run_case(uint64_t seed, long c, bool is_sweep)
                 else if (run_o.final != ref_o.final) viol("C16", "state-diverges-after-fault", "final parser state differs from the fault-free run after the %s fault in call %d (%s)", kind ? "unlock" : "lock", fault_op, OPN[ops[fault_op].type]);
                 DSET("function_state_fault_cells", (uint64_t)(ops[fault_op].type * 100 + fault_state_class * 2 + kind + 1));
                 if (fault_state_class != 0) nontrivial(hash_u64((uint64_t)(k * 2 + kind), hash_u64((uint64_t)CUR_CASE, CUR_SEED)));
+        }
+        /* two faults in a row: unlock #k fails and the very next lock call fails too (a mutex that stays broken for a moment).  The call with the failed lock
+         * does nothing and reports it; the harness retries it; everything else as in the fault-free run */
+        for (long k = 0; k + 1 < K && !case_failed(); k += 1 + (long)rn(3)) {
+                snprintf(note, sizeof note, "faulty run: mutex->unlock call #%ld fails and the following mutex->lock call fails too", k);
+                CUR_STEP = 0;
+                run_history(k + 1, k, ret_run, &run_o);
+                CNT("double_fault_runs");
+                if (case_failed()) break;
+                if (fault_op < 0 || fault_op_u < 0) { viol("C16", "fault-not-reached", "the double fault at unlock call #%ld was not reached", k); break; }
+                for (int i = 0; i < nops; i++) if (ret_run[i] != ret_ref[i] && i != fault_op_u) { viol("C16", "history-diverges-after-fault", "after unlock call #%ld and the next lock call failed, call %d (%s) returned %d instead of %d", k, i, OPN[ops[i].type], ret_run[i], ret_ref[i]); break; }
+                if (case_failed()) break;
+                if (ret_run[fault_op_u] != CAT_STATUS_ERROR_MUTEX_UNLOCK) viol("C16", "unlock-failure-not-reported", "%s returned %d although mutex->unlock failed", OPN[ops[fault_op_u].type], ret_run[fault_op_u]);
+                else if (run_o.n != ref_o.n || memcmp(run_o.out, ref_o.out, ref_o.n) != 0) viol("C16", "output-diverges-after-fault", "output differs from the fault-free run after the double fault at unlock call #%ld", k);
+                else if (run_o.trace != ref_o.trace) viol("C16", "handlers-diverge-after-fault", "handler trace differs from the fault-free run after the double fault at unlock call #%ld", k);
+                else if (run_o.final != ref_o.final) viol("C16", "state-diverges-after-fault", "final parser state differs from the fault-free run after the double fault at unlock call #%ld", k);
         }
         /* contention: every lock call of the history once, with a contender drawn per call */
         for (long k = 0; k < K && !case_failed(); k++) {
